@@ -133,6 +133,32 @@ func features(d string) []feature {
 	add("pk.composite", child(func(t *Tab) { t.PK = []Part{{Col: "qty"}, {Col: "id"}} }))
 	add("pk.composite3", child(func(t *Tab) { t.PK = []Part{{Col: "name"}, {Col: "id"}, {Col: "qty"}} }))
 
+	// primary keys with every part / key attribute an index can carry in the dialect.
+	nn := func(t *Tab, cols ...string) {
+		for _, c := range cols {
+			t.col(c).Null = false
+		}
+	}
+	if d != "sqlite" { // SQLite has no comments.
+		add("pk.comment", child(func(t *Tab) { t.PKComment = `pk "c" ${x}` }))
+	}
+	switch d {
+	case "mysql":
+		add("pk.desc", child(func(t *Tab) { t.PK = []Part{{Col: "id", Desc: true}} }))
+		add("pk.desc-composite", child(func(t *Tab) { t.PK = []Part{{Col: "qty"}, {Col: "id", Desc: true}} }))
+		add("pk.prefix", child(func(t *Tab) { t.PK = []Part{{Col: "name", Prefix: 10}} }))
+		add("pk.prefix-text", child(func(t *Tab) { nn(t, "body"); t.PK = []Part{{Col: "body", Prefix: 100}, {Col: "id"}} }))
+		add("pk.prefix-blob-desc", child(func(t *Tab) { nn(t, "data"); t.PK = []Part{{Col: "id"}, {Col: "data", Prefix: 255, Desc: true}} }))
+		add("pk.type.HASH", child(func(t *Tab) { t.PKType = "HASH" }))
+		add("pk.type.BTREE", child(func(t *Tab) { t.PKType = "BTREE" }))
+		add("pk.type.HASH+desc+prefix", child(func(t *Tab) { t.PKType = "HASH"; t.PK = []Part{{Col: "name", Prefix: 5, Desc: true}, {Col: "id"}} }))
+	case "postgres":
+		add("pk.include-composite", child(func(t *Tab) { t.PK = []Part{{Col: "qty"}, {Col: "id"}}; t.PKInclude = []string{"name", "flag"} }))
+	case "sqlite":
+		add("pk.desc", child(func(t *Tab) { t.PK = []Part{{Col: "id", Desc: true}} }))
+		add("pk.desc-composite", child(func(t *Tab) { t.PK = []Part{{Col: "qty"}, {Col: "name", Desc: true}} }))
+	}
+
 	// ---- indexes ----
 	idx("plain", Idx{Name: "i1", Parts: []Part{{Col: "qty"}}})
 	idx("unique", Idx{Name: "i2", Unique: true, Parts: []Part{{Col: "name"}}})
